@@ -69,6 +69,16 @@ Definition spec_map (nc nr : nat) (o : top) : option (nat -> nat -> source) :=
 Definition oc_rect (c : ocase) : option rect :=
   match oc_kind c with
   | 0 => Some (0, 0, oc_C c, oc_R c)
+  | 4 => match sub_rect (0, 0, oc_C c, oc_R c)
+                 (mkLevel true (1%N, 1%N, N.of_nat (oc_C c), N.of_nat (oc_R c))) with
+         | Some o => sub_rect o (mkLevel true (oc_win c))
+         | None => None
+         end
+  | 5 => match sub_rect (0, 0, oc_C c, oc_R c)
+                 (mkLevel true (0%N, 0%N, N.of_nat (oc_C c - 1), N.of_nat (oc_R c - 1))) with
+         | Some o => sub_rect o (mkLevel true (oc_win c))
+         | None => None
+         end
   | _ => sub_rect (0, 0, oc_C c, oc_R c) (mkLevel true (oc_win c))
   end.
 
